@@ -185,9 +185,12 @@ def roundtrip(d0, ref_shapes, label, expect_ids, dis, feats):
                     dis.append({"clause": "SecondGeneration", "detail": "%s: second generation raised %s: %s" % (what, type(e).__name__, str(e)[:60])})
 
 
-def build_tree(out, vb):
+def build_tree(out, vb, units=False):
     """a document built through the constructors from the spec's rendered shapes"""
-    root = svg.SVG(viewBox=vb, width=200, height=100) if vb else svg.SVG()
+    if units:       # "lengths with units": the size of the viewport in inches / points
+        root = svg.SVG(viewBox=vb, width="2in", height="72pt")
+    else:
+        root = svg.SVG(viewBox=vb, width=200, height=100) if vb else svg.SVG()
     grp = svg.Group(id="built")
     root.append(grp)
     for i, o in enumerate(out):
@@ -209,6 +212,11 @@ def build_tree(out, vb):
                 segs.append(svg.Close(svg.Point(segs[-1].end), svg.Point(float(rat(fp[0])), float(rat(fp[1])))))
         p = svg.Path(*segs) if len(segs) != 1 else svg.Path(segs[0])
         p.transform = M
+        if units and i % 2 == 0:
+            # a translation still given in units ("lengths with units"); units == "resolved" builds the same tree in pixels
+            # (the library cannot multiply a matrix that holds a Length - finding C04 - so the shape's own map is realised first)
+            p.reify()
+            p.transform = svg.Matrix("translate(0.25in, 12pt)" if units is True else "translate(24, 16)")
         p.id = "s%d" % i
         j = i + len(out)
         p.fill = svg.Color(["red", "none", "#0000ff80", "lime", "#ff000000", "transparent"][j % 6])
@@ -239,10 +247,10 @@ def check_case(case):
             continue        # parsing itself is C03's / C10's business
         roundtrip(d0, ref, "parse(reify=%s%s) of %s" % (reify, "" if not kw.get("transform") else ", transform=" + kw["transform"], xml), True, dis, feats)
     if case["src"] == "geometry" and out and case["n"] % 4 == 0:
-        for vb in (None, "0 0 100 50", "-10 5 50 25"):
+        for vb in (None, "0 0 100 50", "-10 5 50 25", "units"):
             try:
-                t = build_tree(out, vb)
-                ref = shapes_of(t)
+                t = build_tree(out, "0 0 100 50", units=True) if vb == "units" else build_tree(out, vb)
+                ref = shapes_of(build_tree(out, "0 0 100 50", units="resolved") if vb == "units" else t)
             except engine.CaseTimeout:
                 raise
             except Exception as e:
